@@ -11,3 +11,4 @@ EXPLANATION = ('The compound pipeline match_selectors is proved equal to the CSS
 LEVEL_TEXT = EXPLANATION + ' Sub-matchers still under assumed contracts are listed in level_note; text->IR is bounded.'
 TIMEOUT_MS = {'quick': 20000, 'thorough': 120000}
 MUSTFAIL_PER_FN = {'quick': 1, 'thorough': 6}
+BOUNDED = [hub_bounded('C01-hub-contract', ALL_HTML + ALL_XML + ['svg5', 'small', 'api'], ['core'])]
